@@ -200,6 +200,13 @@ def gen_config(seed, tier='quick', family=None, index=None):
     cfg['neighbour'] = nl.random() < (0.6 if '.' in cfg['out_stem'] else 0.15)
     # the job script protects finished results: "skip if the output exists" (no output exists when the run starts)
     cfg['skip_if_output_exists'] = (not cfg['preexisting_output']) and nl.random() < 0.12
+    # `random_seed`, and a model with quenched disorder drawn at construction (from numpy's global generator, which
+    # that option seeds, or from the model's own rng, whose seed the simulation derives from it)
+    cfg['random_seed'] = 1234 if nl.random() < 0.2 else None
+    cfg['disorder'] = None
+    if (cfg['random_seed'] is not None and cfg['model'] == 'TFIChain' and fam not in TIME_DEPENDENT
+            and fam not in ('idmrg', 'vumps')):
+        cfg['disorder'] = nl.choice(['np', 'np', 'rng', None])
     return cfg
 
 
@@ -247,6 +254,12 @@ def build_params(cfg, out_name=None):
     }
     if cfg.get('skip_if_output_exists'):
         params['skip_if_output_exists'] = True
+    if cfg.get('random_seed') is not None:
+        params['random_seed'] = cfg['random_seed']
+    if cfg.get('disorder') and cfg.get('random_seed') is not None:  # (unseeded disorder is not reproducible at all)
+        import checks.c18_models  # noqa: F401  (defines DisorderedTFI)
+        params['model_class'] = 'DisorderedTFI'
+        params['model_params'].update({'W': 0.3, 'disorder_source': cfg['disorder']})
     if cfg.get('group_sites', 1) > 1:
         params['group_sites'] = cfg['group_sites']
     if not cfg.get('measure_initial', True):
@@ -405,6 +418,8 @@ class World:
         self.delivery_points = 0
         self.sigint_at = set()
         self.sigints_delivered = 0
+        self.sigterm_at = set()
+        self.sigterms_delivered = 0
         self.kill_after_sigint = None
         self.clock = None
         self.probes = {}
@@ -420,6 +435,19 @@ class World:
     # -- seams -------------------------------------------------------------------------------
     def _deliver(self, where):
         self.delivery_points += 1
+        if self.delivery_points in self.sigterm_at:
+            # SIGTERM (what a batch system sends before it kills the job): whatever handler the code under test
+            # has registered runs here; with the default action the process is gone at once
+            self.sigterms_delivered += 1
+            self.probe('fault_fired:sigterm')
+            self.probe('sigterm_delivered_at:' + where)
+            handler = signal.getsignal(signal.SIGTERM)
+            if callable(handler):
+                self.probe('sigterm_handler_of_the_code_under_test_called')
+                handler(signal.SIGTERM, None)
+            else:
+                self.fs.frozen = True
+                raise simfs.SimCrash('SIGTERM, default action')
         if self.delivery_points in self.sigint_at:
             self.sigints_delivered += 1
             self.probe('fault_fired:sigint')
@@ -495,6 +523,7 @@ class World:
         fs.diskfull_at = None
         fs.full = False  # the user freed some space before restarting
         self.sigint_at = set()
+        self.sigterm_at = set()
         self.kill_after_sigint = None
         self.delivery_points = 0
         base = fs.n_mut
@@ -510,6 +539,8 @@ class World:
                 fs.diskfull_frac = fault.get('frac', 0.5)
             elif kind == 'sigint':
                 self.sigint_at = set(fault['at'])
+            elif kind == 'sigterm':
+                self.sigterm_at = set(fault['at'])
             elif kind == 'sigint_kill':
                 self.sigint_at = set(fault['at'])
                 self.kill_after_sigint = (fault['kill_after_ops'], fault.get('tear'))
@@ -528,6 +559,7 @@ class World:
         real_save = h5mod.save
         saved_git = ver_mod._get_git_revision
         old_handler = signal.getsignal(signal.SIGINT)
+        old_term_handler = signal.getsignal(signal.SIGTERM)
         with simfs.Installed(fs, self.clock, deliver=self._deliver), \
                 contextlib.redirect_stderr(_DEVNULL), contextlib.redirect_stdout(_DEVNULL):
             h5mod.save = self._wrapped_save(real_save)
@@ -561,6 +593,9 @@ class World:
                 out['outcome'] = 'finished'
             except SimCrash:
                 out['outcome'] = 'killed'
+            except SystemExit as e:
+                out['outcome'] = 'exited'  # the process ended itself (e.g. from a signal handler)
+                out['error'] = f'SystemExit({e.code})'
             except SimLiveness as e:
                 out['outcome'] = 'no_progress'
                 out['error'] = str(e)
@@ -582,6 +617,7 @@ class World:
                 ver_mod._get_git_revision = saved_git
                 math_mod.scipy = saved_scipy
                 signal.signal(signal.SIGINT, old_handler)
+                signal.signal(signal.SIGTERM, old_term_handler if old_term_handler is not None else signal.SIG_DFL)
         self.wall_end = self.clock.now
         out['ops_in_segment'] = fs.n_mut - base
         out['clock_reads'] = self.clock.reads
